@@ -141,6 +141,10 @@ main(void)
 		if (hc_is("case", 1)) {
 			now_v = 0;
 			printf("case %s", hc_tok[1]);
+			HC_END();
+			/* a crash is attributed to the last case announced: do not lose the announcement */
+			fflush(stdout);
+			continue;
 		} else if (hc_is("time", 1)) {
 			now_v = (time_t)strtoll(hc_tok[1], NULL, 10);
 			printf("time %lld", (long long)now_v);
